@@ -5,8 +5,12 @@
 //! every Option {Some<->None where constructible}, every non-field integer {+1, -1, 0, large} are fed
 //! to the circuit-building entry points, the packers and `BatchStarkProof::validate`.
 //!
-//! Oracle: no panic in repository code; and whenever a circuit is obtained (built from the mutant,
-//! or the fixed circuit of the honest shape fed with the mutant), circuit-accept => native-accept.
+//! Oracle: no panic in repository code; whenever a circuit is obtained (built from the mutant,
+//! or the fixed circuit of the honest shape fed with the mutant), circuit-accept => native-accept;
+//! and a mutant that the native verifier rejects for a *structural* reason (shape / length /
+//! presence error, see `classify_native`) must make the circuit builders return an error: a builder
+//! that returns Ok for it is reported as `malformed-accepted/<entry point>/<path class>` whatever
+//! running the resulting circuit then says (the property's first sentence).
 //!
 //! Mutants are evaluated in child processes (memory-limited, with a wall-clock limit) so that
 //! aborts (allocation failure, stack overflow) are observed as outcomes instead of killing the run.
@@ -110,10 +114,13 @@ fn some_candidates(h: &Value, p: &Path) -> Vec<SMut> {
                     donor(q, &mut out);
                 }
             }
+            out.push(SMut::SetValue(json!([])));
         }
         Some("permutation") => donor(sibling(p, "main"), &mut out),
         Some("preprocessed_local") | Some("preprocessed_next") | Some("trace_next") => {
-            donor(sibling(p, "trace_local"), &mut out)
+            // Some(v) with v.len() == the instance's main width, and Some([]) (present but empty)
+            donor(sibling(p, "trace_local"), &mut out);
+            out.push(SMut::SetValue(json!([])));
         }
         Some("prep") => {
             if let Some(q) = find_suffix(h, "commitments.trace") {
@@ -154,6 +161,218 @@ fn some_candidates(h: &Value, p: &Path) -> Vec<SMut> {
     out
 }
 
+/// Counters on the "optional part ADDED" family: every `null` node of the honest bundle, by path
+/// class, with the number of None -> Some candidates constructible for it (a class listed under
+/// `null-without-candidate` has no donor of the right shape in that bundle).
+fn null_stats(h: &Value) -> Vec<(String, u64)> {
+    let mut out = std::collections::BTreeMap::<String, u64>::new();
+    for p in js::all_nodes(h) {
+        if js::get(h, &p).and_then(|v| v.as_array()).is_some_and(|a| a.is_empty()) {
+            let class = js::path_class(&p);
+            *out.entry(format!("empty-list-nodes/{class}")).or_default() += 1;
+            let n = empty_list_candidates(h, &p).len() as u64;
+            if n > 0 {
+                *out.entry(format!("empty-list-lengthened-enumerated/{class}")).or_default() += n;
+            }
+        }
+        if !js::get(h, &p).is_some_and(|v| v.is_null()) {
+            continue;
+        }
+        if last_key(&p).is_some_and(|k| k.starts_with('_')) {
+            // `_phantom` / `_marker`: serialized PhantomData, not an optional part
+            continue;
+        }
+        let class = js::path_class(&p);
+        let c: Vec<SMut> =
+            some_candidates(h, &p).into_iter().filter(|m| js::apply_smut(h, &p, m).is_some_and(|d| d != *h)).collect();
+        *out.entry(format!("null-nodes/{class}")).or_default() += 1;
+        if c.is_empty() {
+            *out.entry(format!("null-without-candidate/{class}")).or_default() += 1;
+        } else {
+            *out.entry(format!("to-some-enumerated/{class}")).or_default() += c.len() as u64;
+        }
+        if last_key(&p) == Some("trace_next") {
+            // honest `trace_next == None` <=> the instance's AIR does not open the next row
+            *out.entry("to-some-enumerated/trace_next-of-row-local-instance".to_string()).or_default() += c.len() as u64;
+        }
+    }
+    out.into_iter().collect()
+}
+
+/// Why the native verifier rejected, from the `Debug` rendering of its error.
+#[derive(Clone, Debug, PartialEq)]
+enum NClass {
+    /// shape / length / count / presence error: the proof (or its companion data) is malformed
+    Structural(String),
+    /// structural for the native verifier, but about something that is not an input of the circuit
+    /// builders at all:
+    /// * FRI `num_queries` (`FriVerifierParams` has no such field): from the builder's side the mutant
+    ///   is a well-formed proof of another parameter set; the accepting case is reported by the
+    ///   weaker-circuit oracle;
+    /// * the length of a Merkle authentication path: sibling digests are run-time private data of
+    ///   the MMCS ops (`set_fri_mmcs_private_data`, which returns the typed error), no target is
+    ///   allocated for them and no builder argument carries them.
+    NotABuilderParameter(String),
+    /// algebraic / cryptographic check failed on a well-shaped proof
+    Crypto(String),
+    /// rejected, error not recognised (treated as non-structural; shows up in the counters)
+    Unclassified(String),
+    Accept,
+    Panic,
+}
+
+impl NClass {
+    fn label(&self) -> String {
+        match self {
+            NClass::Structural(v) => format!("structural/{v}"),
+            NClass::NotABuilderParameter(v) => format!("not-a-builder-parameter/{v}"),
+            NClass::Crypto(v) => format!("cryptographic/{v}"),
+            NClass::Unclassified(v) => format!("unclassified/{v}"),
+            NClass::Accept => "accept".into(),
+            NClass::Panic => "panic".into(),
+        }
+    }
+}
+
+/// Error variants of p3_uni_stark::{VerificationError, InvalidProofShapeError}, p3_batch_stark's
+/// BatchVerificationError, p3_lookup::LookupError, p3_fri::FriError, p3_merkle_tree's
+/// MerkleTreeError / PrunedProofError and the repository's BatchStarkProverError /
+/// ProofMetadataError, split by what they say about the input.
+const STRUCTURAL: &[&str] = &[
+    // p3_uni_stark::VerificationError
+    "RandomizationError",
+    // InvalidProofShapeError
+    "InstanceCountMismatch",
+    "TraceLocalWidthMismatch",
+    "TraceNextMismatch",
+    "UnexpectedTraceNext",
+    "QuotientChunksCountMismatch",
+    "QuotientChunkDimensionMismatch",
+    "QuotientDomainsCountMismatch",
+    "PreprocessedTraceWidthMismatch",
+    "PreprocessedVerifierKeyInconsistency",
+    "PreprocessedDegreeMismatch",
+    "PreprocessedWidthMismatch",
+    "UnexpectedPreprocessedValues",
+    "DegreeBitsTooSmall",
+    "DegreeBitsTooLarge",
+    "QuotientDomainTooLarge",
+    "MissingPreprocessedValues",
+    "PreprocessedMetadataMismatch",
+    "PublicValuesLengthMismatch",
+    "OpenedValuesDimensionMismatch",
+    // LookupError (presence / width)
+    "CommitmentMismatch",
+    "TerminalPresenceMismatch",
+    "PermutationLengthMismatch",
+    "PermutationWidthMismatch",
+    // FriError (counts, lengths, heights, schedules)
+    "QueryCommitPhaseOpeningsCountMismatch",
+    "QueryLogAritiesMismatch",
+    "CommitPowWitnessCountMismatch",
+    "FinalPolyLengthMismatch",
+    "ZeroQueries",
+    "MissingInitialReducedOpening",
+    "InitialReducedOpeningHeightMismatch",
+    "GlobalMaxHeightMismatch",
+    "GlobalMaxHeightTooLarge",
+    "SiblingValuesLengthMismatch",
+    "InvalidLogArity",
+    "FinalFoldHeightMismatch",
+    "UnconsumedReducedOpenings",
+    "InputProofBatchCountMismatch",
+    "BatchOpenedValuesCountMismatch",
+    "MatrixWithoutOpeningPoints",
+    "PointEvaluationCountMismatch",
+    "HidingRandomOpeningRoundCountMismatch",
+    "HidingRandomOpeningMatrixCountMismatch",
+    "HidingRandomOpeningPointCountMismatch",
+    // MerkleTreeError / PrunedProofError (dimensions)
+    "WrongBatchSize",
+    "WrongWidth",
+    "IncompatibleHeights",
+    "IndexOutOfBounds",
+    "EmptyBatch",
+    // repository: BatchStarkProverError / ProofMetadataError
+    "UnsupportedDegree",
+    "MissingWForExtension",
+    "MissingTableProver",
+    "ZeroRowCount",
+    "ZeroLanes",
+    "ZeroNpoLanes",
+    "BadMinTraceHeight",
+    "BadHornerPackedSteps",
+    "UnsupportedExtDegree",
+    "ExtDegreeMismatch",
+    "BinomialWMismatch",
+    "QuinticReductionMismatch",
+];
+const NOT_A_BUILDER_PARAMETER: &[&str] = &[
+    // FriError: number of queries (not a field of FriVerifierParams)
+    "QueryProofCountMismatch",
+    // MerkleTreeError / PrunedProofError: authentication path length / layout (run-time private data)
+    "WrongHeight",
+    "TooManyUniquePaths",
+    "SiblingCountMismatch",
+    "OriginalOrderOutOfRange",
+];
+const CRYPTO: &[&str] = &[
+    "OodEvaluationMismatch",
+    "OodPointInDomain",
+    "FinalPolyMismatch",
+    "InvalidPowWitness",
+    "OpeningPointMatchesQueryPoint",
+    "CapMismatch",
+    "RootMismatch",
+    "InconsistentDuplicateOpenings",
+    "TerminalSumNonZero",
+    "MultiplicityHeightBoundExceeded",
+];
+
+fn classify_native(n: &NativeV, dbg: Option<&str>) -> NClass {
+    match n {
+        NativeV::Accept => return NClass::Accept,
+        NativeV::Panic(_) => return NClass::Panic,
+        NativeV::Reject(_) => {}
+    }
+    let d = dbg.unwrap_or("");
+    // the error is one chain `Outer(Inner(Leaf { .. }))`: the innermost recognised identifier decides
+    let mut hit: Option<NClass> = None;
+    for tok in d.split(|c: char| !c.is_alphanumeric() && c != '_').filter(|t| !t.is_empty()) {
+        if CRYPTO.contains(&tok) {
+            hit = Some(NClass::Crypto(tok.to_string()));
+        } else if NOT_A_BUILDER_PARAMETER.contains(&tok) {
+            hit = Some(NClass::NotABuilderParameter(tok.to_string()));
+        } else if STRUCTURAL.contains(&tok) {
+            hit = Some(NClass::Structural(tok.to_string()));
+        }
+    }
+    hit.unwrap_or_else(|| {
+        let head: Vec<&str> =
+            d.split(|c: char| !c.is_alphanumeric() && c != '_').filter(|t| !t.is_empty()).take(3).collect();
+        NClass::Unclassified(head.join("."))
+    })
+}
+
+/// "List lengthened" candidates for an *empty* list (dup-last needs an element): the per-instance
+/// lookup openings of an instance without lookups, and the public values of an AIR without any.
+fn empty_list_candidates(h: &Value, p: &Path) -> Vec<SMut> {
+    let ps = js::path_str(p);
+    match last_key(p) {
+        Some("permutation_local") | Some("permutation_next") => {
+            // one extension element, taken from the same instance's main opening
+            let mut q = p.clone();
+            q.pop();
+            q.push(Seg::K("base_opened_values".into()));
+            q.push(Seg::K("trace_local".into()));
+            q.push(Seg::I(0));
+            js::get(h, &q).map(|e| vec![SMut::SetValue(json!([e]))]).unwrap_or_default()
+        }
+        Some("pis") if ps == "pis" || ps.starts_with("pis[") => vec![SMut::SetValue(json!([1]))],
+        _ => vec![],
+    }
+}
+
 fn enumerate(h: &Value, thorough: bool) -> Vec<Mutant> {
     let mut out = vec![];
     for p in js::all_nodes(h) {
@@ -177,6 +396,9 @@ fn enumerate(h: &Value, thorough: bool) -> Vec<Mutant> {
                 }
                 if n > 2 {
                     ms.push(SMut::Swap(0, 1));
+                }
+                if n == 0 {
+                    ms.extend(empty_list_candidates(h, &p));
                 }
                 ms.push(SMut::ToNull);
             }
@@ -241,11 +463,52 @@ fn progress(child: bool, what: &str) {
     }
 }
 
+/// Rejected before execution, with a typed error, by the stage that packs / sets the circuit inputs.
+fn input_stage_error(run: &CircV) -> bool {
+    const STAGES: &[&str] = &[
+        "set_public_inputs:",
+        "set_private_inputs:",
+        "mmcs-private-data:",
+        "set_private_data:",
+        "pack_public_inputs:",
+        "pack_private_inputs:",
+    ];
+    matches!(run, CircV::Reject(s) if STAGES.iter().any(|p| s.starts_with(p)))
+}
+
+fn nl_fingerprint(list: &[(String, CircV)]) -> Option<&str> {
+    list.iter().find(|(e, _)| e.ends_with("#fingerprint")).and_then(|(_, v)| match v {
+        CircV::Precond(s) => Some(s.as_str()),
+        _ => None,
+    })
+}
+
+/// Fingerprints of the circuits the builders return for the honest bundle.
+struct HonestFp<'a> {
+    verify: u64,
+    ctx: &'a dyn kit::Ctx,
+    h: &'a Value,
+    next_layer: std::cell::OnceCell<Option<String>>,
+}
+
+impl<'a> HonestFp<'a> {
+    fn new(ctx: &'a dyn kit::Ctx, h: &'a Value, compiled: &dyn kit::Compiled) -> Self {
+        HonestFp { verify: compiled.fingerprint(), ctx, h, next_layer: std::cell::OnceCell::new() }
+    }
+    /// `build_next_layer_circuit` on the honest bundle (computed on first use)
+    fn next_layer(&self) -> Option<&str> {
+        self.next_layer
+            .get_or_init(|| self.ctx.extra_entry_points(self.h).ok().and_then(|l| nl_fingerprint(&l).map(str::to_string)))
+            .as_deref()
+    }
+}
+
 /// Evaluate one mutant against every entry point.
 fn eval_mutant(
     shape: &dyn Shape,
     ctx: &dyn kit::Ctx,
     honest_compiled: &dyn kit::Compiled,
+    hfp: &HonestFp<'_>,
     h: &Value,
     honest_pack: Option<&(Vec<Vec<u64>>, Vec<Vec<u64>>)>,
     mu: &Mutant,
@@ -259,6 +522,10 @@ fn eval_mutant(
         SMut::Swap(i, j) => format!("swap{i}-{j}"),
         SMut::SetInt(v) => format!("int={v}"),
         SMut::FromDonor(d) => format!("some<-{}", js::path_class(&js::parse_path(d))),
+        SMut::SetValue(v) => match v {
+            Value::Array(a) if a.is_empty() => "some=[]".to_string(),
+            other => format!("some={:x}", fnv(&other.to_string()) & 0xffff),
+        },
         other => other.label(),
     };
     let key = format!("{name}:{}:{mlabel}", mu.path);
@@ -270,16 +537,57 @@ fn eval_mutant(
             "native": n.label(), "circuit": c.label()})
     };
     progress(child, "native");
-    let native = match ctx.native(&m) {
+    let (native, native_dbg) = match ctx.native_detail(&m) {
         Ok(n) => n,
         Err(_) => {
             return vec![Rec::held(key, false).count(format!("undeserializable/{}", mu.m.label()), 1)];
         }
     };
+    let nclass = classify_native(&native, native_dbg.as_deref());
     let mut recs = vec![];
     let mut base = Rec::held(key.clone(), true)
         .count(format!("mutants/{}", mu.m.label()), 1)
-        .count(format!("native/{}", if native.accepts() { "accept" } else { "reject" }), 1);
+        .count(format!("native/{}", if native.accepts() { "accept" } else { "reject" }), 1)
+        .count(format!("native-class/{}", nclass.label()), 1);
+    if mu.m.label() == "to-some" {
+        base = base.count(format!("to-some-evaluated/{class}"), 1);
+        if last_key(&p) == Some("trace_next") {
+            base = base.count("to-some-evaluated/trace_next-of-row-local-instance", 1);
+        }
+    }
+    // Oracle "malformed accepted by the builder": `entry` returned Ok for a mutant that the native
+    // verifier rejects for a structural reason; `run` is what running the built circuit then said.
+    // `same_circuit`: the builder returned exactly the circuit it returns for the honest bundle.
+    let malformed = |entry: &str, run: &CircV, same_circuit: Option<bool>, recs: &mut Vec<Rec>, base: &mut Rec| match &nclass {
+        NClass::Structural(variant) => {
+            if run.accepts() {
+                // reported by `judge` as weaker-circuit/<entry>/<class>: one report per (mutant, entry)
+                base.counters.push((format!("malformed-accepted/{entry}/subsumed-by-weaker-circuit"), 1));
+            } else if same_circuit == Some(true) && input_stage_error(run) {
+                // The builder does not consume the malformed part: it built the well-formed circuit
+                // (specialised by construction, e.g. sibling count from the declared log_arity) and the
+                // stage that does consume that part refused the mutant with a typed error.
+                base.counters.push((format!("builder-ok/{entry}/well-formed-circuit+typed-input-error/{variant}"), 1));
+            } else {
+                recs.push(Rec::violated(
+                    format!("{key}:{entry}:malformed-accepted"),
+                    format!("malformed-accepted/{entry}/{class}"),
+                    json!({"shape": name, "mutant": mu, "mutation": mlabel, "path_class": class, "entry_point": entry,
+                        "native": native.label(), "native_error": native_dbg.as_deref().map(|d| d.chars().take(300).collect::<String>()),
+                        "native_class": format!("structural/{variant}"), "builder": "Ok",
+                        "circuit_run": run.label(), "built_circuit_equals_honest_circuit": same_circuit,
+                        "note": "the native verifier rejects this input for its shape; the circuit builder returned Ok instead of an error"}),
+                ));
+            }
+        }
+        NClass::NotABuilderParameter(v) => {
+            base.counters.push((format!("builder-ok/{entry}/native-structural-but-not-a-builder-parameter/{v}"), 1))
+        }
+        NClass::Crypto(_) => base.counters.push((format!("builder-ok/{entry}/native-rejects-cryptographically"), 1)),
+        NClass::Unclassified(_) => base.counters.push((format!("builder-ok/{entry}/native-rejects-unclassified"), 1)),
+        NClass::Accept => base.counters.push((format!("builder-ok/{entry}/native-accepts"), 1)),
+        NClass::Panic => base.counters.push((format!("builder-ok/{entry}/native-panics"), 1)),
+    };
     if let NativeV::Panic(site) = &native {
         if site.starts_with("repo/") {
             // The native verifier of circuit proofs is not a circuit builder: a panic there is an
@@ -321,7 +629,11 @@ fn eval_mutant(
         Ok(Ok(c)) => {
             progress(child, "run");
             match c.run(&m) {
-                Ok(v) => judge(ve, &v, &mut recs, &mut base),
+                Ok(v) => {
+                    judge(ve, &v, &mut recs, &mut base);
+                    let same = matches!(nclass, NClass::Structural(_)).then(|| c.fingerprint() == hfp.verify);
+                    malformed(ve, &v, same, &mut recs, &mut base);
+                }
                 Err(_) => base.counters.push((format!("{ve}/undeserializable-for-entry"), 1)),
             }
         }
@@ -347,7 +659,22 @@ fn eval_mutant(
     match ctx.extra_entry_points(&m) {
         Err(_) => base.counters.push(("extra-entry-points/undeserializable-for-entry".into(), 1)),
         Ok(list) => {
+            for (ep, v) in list.iter() {
+                // ("build_next_layer_circuit", Accept) = the builder returned Ok; its "+run" entry follows
+                if ep == "build_next_layer_circuit" && v.accepts() {
+                    if let Some((_, run)) = list.iter().find(|(e, _)| e == "build_next_layer_circuit+run") {
+                        let same = match (&nclass, nl_fingerprint(&list)) {
+                            (NClass::Structural(_), Some(fp)) => hfp.next_layer().map(|h| h == fp),
+                            _ => None,
+                        };
+                        malformed(ep, run, same, &mut recs, &mut base);
+                    }
+                }
+            }
             for (ep, v) in list {
+                if ep.ends_with("#fingerprint") {
+                    continue;
+                }
                 if ep.ends_with("+run") || matches!(v, CircV::Panic { .. }) {
                     let epn = ep.trim_end_matches("+run").to_string();
                     judge(&epn, &v, &mut recs, &mut base);
@@ -365,6 +692,26 @@ struct Prepared {
     ctx: Box<dyn kit::Ctx>,
 }
 
+/// Shapes of the C15 sweep only (the C01 / C14 shape lists are untouched): batches containing a
+/// *row-local* AIR (`main_next_row_columns()` empty), whose honest proof carries `trace_next: None`
+/// for that instance, so that the "optional part ADDED" mutants `trace_next: Some(..)` exist for a
+/// plain `verify_batch_circuit` shape (the circuit-prover batch shapes have such instances too:
+/// their Const / Public tables).
+fn c15_extra_shapes(thorough: bool) -> Vec<Box<dyn Shape>> {
+    use kit::airs::TAir;
+    let mut v = vec![kit::cfgs::kb::batch(vec![TAir::AddRl { rows: 8 }, TAir::Sub { rows: 8 }])];
+    if thorough {
+        v.push(kit::cfgs::bb::batch(vec![TAir::AddRl { rows: 8 }]));
+        v.push(kit::cfgs::gl::batch(vec![TAir::Fib { rows: 8 }, TAir::AddRl { rows: 16 }]));
+        v.push(kit::cfgs::kbzk::batch(vec![TAir::AddRl { rows: 64 }]));
+    }
+    v
+}
+
+fn shape_by_name(name: &str) -> Option<Box<dyn Shape>> {
+    kit::shape_by_name(name).or_else(|| c15_extra_shapes(true).into_iter().find(|s| s.name() == name))
+}
+
 fn child_main(args: &Args) -> ! {
     install_quiet_panic_hook();
     let name = args.extra.get("shape-name").cloned().unwrap_or_default();
@@ -376,7 +723,7 @@ fn child_main(args: &Args) -> ! {
         println!("F {why}");
         std::process::exit(3)
     };
-    let Some(shape) = kit::shape_by_name(&name) else { fail(format!("unknown shape {name}")) };
+    let Some(shape) = shape_by_name(&name) else { fail(format!("unknown shape {name}")) };
     let h: Value = match std::fs::read_to_string(&file).map_err(|e| e.to_string()).and_then(|s| serde_json::from_str(&s).map_err(|e| e.to_string())) {
         Ok(v) => v,
         Err(e) => fail(format!("bundle: {e}")),
@@ -423,9 +770,11 @@ fn child_main(args: &Args) -> ! {
     }
     let mutants = enumerate(&h, thorough);
     let honest_pack = compiled.pack(&h).ok();
+    let hfp = HonestFp::new(prep.ctx.as_ref(), &h, compiled.as_ref());
     for (k, mu) in mutants.iter().enumerate().take(hi).skip(lo) {
         println!("B {k}");
-        let recs = eval_mutant(shape.as_ref(), prep.ctx.as_ref(), compiled.as_ref(), &h, honest_pack.as_ref(), mu, true);
+        let recs =
+            eval_mutant(shape.as_ref(), prep.ctx.as_ref(), compiled.as_ref(), &hfp, &h, honest_pack.as_ref(), mu, true);
         println!("R {}", serde_json::to_string(&recs).unwrap());
         println!("E {k}");
         let _ = std::io::stdout().flush();
@@ -591,7 +940,7 @@ fn replay(path: &std::path::Path) -> Vec<CaseResult> {
     let d = &v["detail"];
     let sig = v["signature"].as_str().unwrap_or("").to_string();
     let name = d["shape"].as_str().unwrap_or("").to_string();
-    let Some(shape) = kit::shape_by_name(&name) else {
+    let Some(shape) = shape_by_name(&name) else {
         return vec![CaseResult::inconclusive("replay", format!("unknown shape {name}"))];
     };
     let h = match shape.honest() {
@@ -623,7 +972,8 @@ fn replay(path: &std::path::Path) -> Vec<CaseResult> {
     };
     println!("replaying {} {} {:?} in-process (an abort finding terminates this process)", name, mu.path, mu.m.label());
     let honest_pack = compiled.pack(&h).ok();
-    let recs = eval_mutant(shape.as_ref(), ctx.as_ref(), compiled.as_ref(), &h, honest_pack.as_ref(), &mu, false);
+    let hfp = HonestFp::new(ctx.as_ref(), &h, compiled.as_ref());
+    let recs = eval_mutant(shape.as_ref(), ctx.as_ref(), compiled.as_ref(), &hfp, &h, honest_pack.as_ref(), &mu, false);
     let hits: Vec<CaseResult> =
         recs.iter().filter(|r| r.verdict == "violated" && r.signature == sig).take(1).cloned().map(Rec::into_case).collect();
     if !hits.is_empty() {
@@ -649,6 +999,12 @@ fn main() {
     rep.assume("native Plonky3 verifiers are the reference for 'the well-formed shape would check this'");
     rep.assume("panics inside p3-* crates reached from the *native* verifier are counted, not attributed to the repository");
     rep.assume("documented `# Panics` preconditions of allocation helpers are respected by the harness (not called when violated)");
+    rep.assume(
+        "malformed-accepted oracle: a native rejection is 'structural' when its error variant is a shape / length / count / \
+         presence error (list in classify_native); FRI num_queries and Merkle path lengths are not inputs of the circuit \
+         builders and are excluded; a builder that returns exactly the honest-shape circuit while the input-setting stage \
+         refuses the mutant with a typed error is not a violation",
+    );
     if let Some(p) = &args.replay {
         let rs = replay(p);
         rep.add_all(rs);
@@ -659,6 +1015,7 @@ fn main() {
     if !thorough && !args.extra.contains_key("all") {
         shapes.truncate(kit::N_CORE);
     }
+    shapes.extend(c15_extra_shapes(thorough));
     if let Some(f) = args.extra.get("shape") {
         shapes.retain(|s| s.name().contains(f.as_str()));
     }
@@ -684,9 +1041,12 @@ fn main() {
                 let f = format!("{dir}/{si}.json");
                 std::fs::write(&f, serde_json::to_string(&h).unwrap()).expect("write bundle");
                 let ms = enumerate(&h, thorough);
+                let mut en = CaseResult::held(format!("{}:enumerated", s.name()), false);
+                for (k, n) in null_stats(&h) {
+                    en = en.count(k, n);
+                }
                 rep.add(
-                    CaseResult::held(format!("{}:enumerated", s.name()), false)
-                        .count("mutants-enumerated", ms.len() as u64)
+                    en.count("mutants-enumerated", ms.len() as u64)
                         .with_sample(json!({"shape": s.name(), "mutants": ms.len(),
                             "example": ms.iter().step_by((ms.len() / 4).max(1)).take(4).collect::<Vec<_>>()})),
                 );
@@ -703,6 +1063,11 @@ fn main() {
             }
         }
     }
+    if args.extra.contains_key("enum-only") {
+        // diagnostic: enumeration counters only
+        let _ = std::fs::remove_dir_all(&dir);
+        rep.finish(0);
+    }
     // largest shapes first is not needed: jobs are uniform chunks
     let tier = args.tier;
     let results = run_cases(jobs.len(), args.threads, |i| run_job(&shapes, &files, &mutants, &jobs[i], tier, mem_kb, secs));
@@ -714,6 +1079,11 @@ fn main() {
         .filter(|r| !r.key.ends_with(":native") && !r.key.contains(":verify_") && !r.key.contains(":fixed-") && !r.key.contains(":build_next"))
         .count();
     rep.set_extra("mutant_records", json!(evaluated));
+    // `run_cases` keeps the detail of only the first 25 violations of a signature *in completion
+    // order*: put the records that still carry their detail first, so that the replay file written
+    // for a signature is always a usable one.
+    let mut results = results;
+    results.sort_by_key(|r| matches!(&r.verdict, Verdict::Violated { detail, .. } if detail.is_null()));
     if let Some(f) = args.extra.get("dump") {
         let mut seen = std::collections::BTreeMap::<String, (u64, Value)>::new();
         for r in &results {
